@@ -35,12 +35,16 @@ LU  == Loc(M0, 8, <<>>, FALSE)                                    \* unsymbolise
 F2  == Fn("f", "f", "b.c", 0)                                     \* another function called f, in another file
 LF2 == Loc(M0, 9, <<Ln(F2, 40, 1)>>, FALSE)
 LN  == Loc(NoMap, 10, <<Ln(G, 23, 1)>>, FALSE)                    \* a symbolized location without any mapping (Java profiles, hand-built ones)
+FE  == Fn("e", "e", "", 0)                                        \* a function whose source file is not known
+LE  == Loc(M0, 11, <<Ln(FE, 50, 1)>>, FALSE)
 Locs == <<LF, LG, LH, LGF, L3, LU>>
-Universe == {"f", "g", "h", "a.c", "b.c", "bin", "lib"}
+\* "" stands for an expression that matches the empty string only (^()$): it matches a frame through an empty file name
+Universe == {"f", "g", "h", "a.c", "b.c", "bin", "lib", ""}
 
 Stacks(dummy) == {<<>>} \cup {<<Locs[i]>> : i \in DOMAIN Locs} \cup {<<Locs[i], Locs[j]>> : i, j \in DOMAIN Locs}
           \cup {<<LF, LGF, LH>>, <<L3, LG, L3>>, <<LU, LF, LU>>}
           \cup {<<LF2>>, <<LF, LF2>>, <<LF2, LF>>, <<LF2, LH>>, <<LGF, LF2>>}      \* two functions of one name in different files
+          \cup {<<LE>>, <<LE, LF>>, <<LG, LE>>}
           \cup {<<LN, LF>>, <<LH, LN>>, <<LN, LGF, LN>>}     \* (always next to a mapped location: a profile without ANY mapping gets one made up by the driver)
 Second(dummy) == IF Tier # "thorough" THEN {<<LGF, LH>>, <<>>} ELSE {<<LGF, LH>>, <<>>, <<L3, LF>>}
 Profiles(dummy) == { << Smp(a, <<1, 3>>, <<SLab("k", <<"x">>)>>, <<>>), Smp(b, <<2, -2>>, <<>>, <<>>) >> : a \in Stacks(0), b \in Second(0) }
